@@ -4,7 +4,7 @@ Every file efun x paths (exhaustive over a small path alphabet up to a length bo
 dotted / hidden / over-long paths) x master policies {deny, allow, rewrite, file-backed (the master reads its own list with read_file while it is asked)}; plus #include / inherit /
 load_object / clone_object / call_other names. Oracle: the merged master apply log and the interposed libc
 file-call log of each single efun call."""
-import itertools, os
+import fnmatch, itertools, os
 
 from hypothesis import strategies as st
 
@@ -24,7 +24,7 @@ ASSUMPTIONS = ["every libc function taking a path that the repository's objects 
 NONTRIVIAL_FLOOR = {"quick": 1000, "thorough": 20000}
 
 ALPHA = "ab./# "
-ONE = ["read_file", "write_file", "read_bytes", "write_bytes", "read_buffer", "write_buffer", "file_size", "stat", "get_dir", "tail", "rm", "mkdir",
+ONE = ["read_file", "write_file", "read_bytes", "write_bytes", "read_buffer", "write_buffer", "file_size", "stat", "get_dir", "get_dir_long", "tail", "rm", "mkdir",
        "rmdir", "save_object", "restore_object", "file_length", "dumpallobj", "dump_prog"]
 TWO = ["rename", "cp", "link"]
 LOADERS = ["load_object", "clone_object", "find_object1", "call_other", "include", "include_sys", "inherit"]
@@ -48,6 +48,7 @@ mixed run(string ef, string p, string q) {
     case "file_size": r = file_size(p); break;
     case "stat": r = stat(p); break;
     case "get_dir": r = get_dir(p); break;
+    case "get_dir_long": r = get_dir(p, -1); break;
     case "tail": r = tail(p); break;
     case "rm": r = rm(p); break;
     case "mkdir": r = mkdir(p); break;
@@ -77,6 +78,9 @@ def enum_paths(maxlen):
             yield "".join(t)
 
 
+# a directory that exists, five levels of 250-byte names deep, holding one file with a 250-byte name: 1260 bytes of path
+DEEP = "deep/" + "/".join("d" * 250 for _ in range(5))
+DEEP_FILE = DEEP + "/" + "f" * 250
 long_comp = st.sampled_from(["a" * 255, "b" * 256, "a" * 1030, "." * 3, ".hidden", "..", ".", "a", "b", "x y", "#1", "a#b", "scratch", "t", "..."])
 gen_paths = st.one_of(
     st.lists(long_comp, min_size=1, max_size=6).map(lambda c: "/".join(c)),
@@ -85,6 +89,7 @@ gen_paths = st.one_of(
     st.lists(long_comp, min_size=1, max_size=4).map(lambda c: "//" + "//".join(c)),
     st.lists(st.sampled_from(["a", "b" * 255]), min_size=20, max_size=40).map(lambda c: "/".join(c)),
     st.text(alphabet=ALPHA, min_size=5, max_size=12),
+    st.sampled_from(["/" + DEEP, "/" + DEEP + "/", DEEP + "/.", "/" + DEEP + "/ff*", "/" + DEEP_FILE, "/" + DEEP.rsplit("/", 1)[0], "/" + DEEP.rsplit("/", 2)[0] + "/*", "/deep"]),
 )
 dot_comp = st.sampled_from(["..", "..", ".", "", "", "a", "b", "t", "inc", "canary", "a.h"])
 loader_paths = st.one_of(gen_paths, st.lists(dot_comp, min_size=2, max_size=7).map(lambda c: "/".join(c)))
@@ -167,7 +172,10 @@ def run_probes(ctx, w, probes):
                 if na.endswith(".o") and np_ in (na, na + ".tmp"):
                     ok = True
                 # get_dir / stat of a name that does not exist match it as a pattern in its parent directory
-                if ef in ("get_dir", "stat") and np_ == (os.path.dirname(na) or "."):
+                if ef in ("get_dir", "get_dir_long", "stat") and np_ == (os.path.dirname(na) or "."):
+                    ok = True
+                # ... and the detailed form stats every entry of that directory which the pattern matches
+                if ef == "get_dir_long" and os.path.dirname(np_) == os.path.dirname(na) and fnmatch.fnmatchcase(os.path.basename(np_), os.path.basename(na)):
                     ok = True
             if not ok:
                 stem = np_[:-4] if np_.endswith(".tmp") else np_
@@ -211,7 +219,7 @@ def get_worker(ctx):
     w = _workers.get(ctx.rundir)
     if w is None:
         fl = {"t/agent.c": AGENT, "a": "decoy a\n", "b/a": "decoy\n", "ab.c": "int x;\n", "a.o": "#/t/agent.c\n", "scratch/x": "rewritten target\n",
-              "scratch/x.o": "#/t/agent.c\n", "inc/a": "int y;\n", ".hidden": "h\n", "acl.txt": ACL_TEXT}
+              "scratch/x.o": "#/t/agent.c\n", "inc/a": "int y;\n", ".hidden": "h\n", "acl.txt": ACL_TEXT, DEEP_FILE: "deep file\n"}
         w = Worker(ctx.scratch("w"), timeout=60, mudlib_files=fl, conf={"IncludeDir": "/inc"})
         # canaries outside the mudlib: siblings of the mudlib directory reachable through "../a", "../b"
         for nme in ("a", "b", "canary"):
@@ -235,7 +243,7 @@ def close_workers(ctx):
 
 
 def reset_mudlib(w):
-    for rel, txt in {"a": "decoy a\n", "b/a": "decoy\n", "scratch/x": "rewritten target\n", "acl.txt": ACL_TEXT}.items():
+    for rel, txt in {"a": "decoy a\n", "b/a": "decoy\n", "scratch/x": "rewritten target\n", "acl.txt": ACL_TEXT, DEEP_FILE: "deep file\n"}.items():
         p = os.path.join(w.mudlib, rel)
         try:
             if os.path.isdir(p):
